@@ -3,53 +3,99 @@
 From RW Require Import Base.Bytes Fmt.Codec Fmt.Frame Wal.Model Wal.Spec Wal.Hist Wal.FaultHist Wal.CrashExamples Gen.Constants.
 Open Scope N_scope.
 
+(* a call with a counted fault only *)
+Notation FO f o := (FOp f fx_none o).
+
 (* A: the fsync of a 2-entry append fails (write ok, fault on the 2nd action); the
    entries are not visible; a shorter batch with another term is then written at the
    same offset; after a restart only that batch is there *)
 Definition fh_fsync_then_shorter : list fstep :=
-  [FOp None (OStore [ex_log 1 1]);
-   FOp (Some 1%nat) (OStore [ex_log 2 1; ex_log 3 1]);
-   FOp None (OGet 2); FOp None OLast;
-   FOp None (OStore [ex_log 2 2]);
-   FOp None (OGet 2); FRestart; FOp None OLast; FOp None (OGet 2); FOp None (OGet 3)].
+  [FO None (OStore [ex_log 1 1]);
+   FO (Some 1%nat) (OStore [ex_log 2 1; ex_log 3 1]);
+   FO None (OGet 2); FO None OLast;
+   FO None (OStore [ex_log 2 2]);
+   FO None (OGet 2); FRestart; FO None OLast; FO None (OGet 2); FO None (OGet 3)].
 
 (* A': the same failed fsync followed directly by a restart: the complete batch sits
    behind the last commit and is adopted by the recovery (the failed call is applied,
    as a whole, at restart time) *)
 Definition fh_fsync_then_restart : list fstep :=
-  [FOp None (OStore [ex_log 1 1]);
-   FOp (Some 1%nat) (OStore [ex_log 2 1; ex_log 3 1]);
-   FOp None OLast; FRestart; FOp None OLast; FOp None (OGet 3)].
+  [FO None (OStore [ex_log 1 1]);
+   FO (Some 1%nat) (OStore [ex_log 2 1; ex_log 3 1]);
+   FO None OLast; FRestart; FO None OLast; FO None (OGet 3)].
 
 (* B: tail truncation inside the unsealed tail: force-seal write and fsync, metadata
    commit succeed, the creation of the new tail fails (4th action): the WAL refuses
    writes, readers still see the old state; after a reopen the truncation is applied *)
 Definition fh_trunc_create_fails : list fstep :=
-  [FOp None (OStore [ex_log 1 1; ex_log 2 1; ex_log 3 1]);
-   FOp (Some 3%nat) (ODelete 3 3);
-   FOp None (OStore [ex_log 4 1]); FOp None OLast; FOp None (OGet 3);
-   FOp None OReopen; FOp None OLast; FOp None (OStore [ex_log 3 5]); FOp None (OGet 3)].
+  [FO None (OStore [ex_log 1 1; ex_log 2 1; ex_log 3 1]);
+   FO (Some 3%nat) (ODelete 3 3);
+   FO None (OStore [ex_log 4 1]); FO None OLast; FO None (OGet 3);
+   FO None OReopen; FO None OLast; FO None (OStore [ex_log 3 5]); FO None (OGet 3)].
 
 (* C: the commit of the pending rotation fails (1st action of the next StoreLogs): the
    tail stays sealed, appends are refused until a restart completes the rotation *)
 Definition fh_rotation_commit_fails : list fstep :=
-  [FOp None (OStore [ex_log 1 1]); FOp None (OStore [ex_log 2 1]);
-   FOp (Some 0%nat) (OStore [ex_log 3 1]);
-   FOp None (OStore [ex_log 3 1]); FOp None OLast; FOp None (ODelete 1 1); FOp None OFirst;
-   FRestart; FOp None (OStore [ex_log 3 1]); FOp None OLast; FOp None OFirst].
+  [FO None (OStore [ex_log 1 1]); FO None (OStore [ex_log 2 1]);
+   FO (Some 0%nat) (OStore [ex_log 3 1]);
+   FO None (OStore [ex_log 3 1]); FO None OLast; FO None (ODelete 1 1); FO None OFirst;
+   FRestart; FO None (OStore [ex_log 3 1]); FO None OLast; FO None OFirst].
 
 (* D: a fault inside Open (which has to complete an interrupted rotation: its metadata
    commit fails): Open returns an error, every call fails, the next Open succeeds *)
 Definition fh_fault_in_open : list fstep :=
-  [FOp None (OStore [ex_log 1 1]); FOp None (OStore [ex_log 2 1]);
-   FOp (Some 0%nat) OReopen; FOp None OLast; FOp None (OStore [ex_log 3 1]);
-   FOp None OReopen; FOp None OLast; FOp None (OStore [ex_log 3 1]); FOp None (OGet 3)].
+  [FO None (OStore [ex_log 1 1]); FO None (OStore [ex_log 2 1]);
+   FO (Some 0%nat) OReopen; FO None OLast; FO None (OStore [ex_log 3 1]);
+   FO None OReopen; FO None OLast; FO None (OStore [ex_log 3 1]); FO None (OGet 3)].
 
 (* E: a failed stable-store write, and a failed head truncation whose commit fails *)
 Definition fh_misc : list fstep :=
-  [FOp None (OSet [107] [1] false); FOp (Some 0%nat) (OSet [107] [2] false); FOp None (OGetS [107]);
-   FOp None (OStore [ex_log 1 1; ex_log 2 1]); FOp (Some 0%nat) (ODelete 0 1); FOp None OFirst;
-   FRestart; FOp None OFirst; FOp None (OGetS [107])].
+  [FO None (OSet [107] [1] false); FO (Some 0%nat) (OSet [107] [2] false); FO None (OGetS [107]);
+   FO None (OStore [ex_log 1 1; ex_log 2 1]); FO (Some 0%nat) (ODelete 0 1); FO None OFirst;
+   FRestart; FO None OFirst; FO None (OGetS [107])].
+
+(* the fault modes; they are in force while a counted fault is armed, so a call that
+   is to see only the mode carries a count no call reaches *)
+Definition fx_deletes : fxmode := {| fx_del := true; fx_list := false; fx_leave := false |}.
+Definition fx_listing : fxmode := {| fx_del := false; fx_list := true; fx_leave := false |}.
+Definition fx_leaves : fxmode := {| fx_del := false; fx_list := false; fx_leave := true |}.
+Definition never : option nat := Some 200%nat.
+
+(* F: every deletion of a head truncation fails: the truncation is applied, the files
+   stay; the clean-up of the next Open fails as well; the one after removes them *)
+Definition fh_delete_fails : list fstep :=
+  [FO None (OStore [ex_log 1 1]); FO None (OStore [ex_log 2 1]); FO None (OStore [ex_log 3 1]);
+   FO None (OStore [ex_log 4 1]); FO None (OStore [ex_log 5 1]);
+   FOp never fx_deletes (ODelete 1 4); FO None OFirst; FO None (OStore [ex_log 6 1]);
+   FOp never fx_deletes OReopen; FO None OFirst; FO None OLast;
+   FO None OReopen; FO None OFirst; FO None OLast; FO None (OStore [ex_log 7 1])].
+
+(* F': the deletion of the old tail fails when the empty first segment is replaced *)
+Definition fh_reset_delete_fails : list fstep :=
+  [FOp never fx_deletes (OStore [ex_log 5 1]); FO None OFirst; FO None (OStore [ex_log 6 1]);
+   FRestart; FO None OFirst; FO None OLast].
+
+(* G: the directory listing of an Open fails: Open returns an error, every call fails,
+   the next Open succeeds *)
+Definition fh_list_fails : list fstep :=
+  [FO None (OStore [ex_log 1 1]); FO None (OStore [ex_log 2 1]);
+   FOp never fx_listing OReopen; FO None OLast; FO None (OStore [ex_log 3 1]);
+   FO None OReopen; FO None OLast; FO None (OStore [ex_log 3 1]); FO None (OGet 3)].
+
+(* H: the creation of the new tail after a tail truncation fails and leaves the empty
+   file behind: the WAL refuses writes; the next Open adopts the file as the tail *)
+Definition fh_trunc_create_leaves : list fstep :=
+  [FO None (OStore [ex_log 1 1; ex_log 2 1; ex_log 3 1]);
+   FOp (Some 3%nat) fx_leaves (ODelete 3 3);
+   FO None (OStore [ex_log 4 1]); FO None OLast;
+   FO None OReopen; FO None OLast; FO None (OStore [ex_log 3 5]); FO None (OGet 3)].
+
+(* H': the same for the file of a rotation *)
+Definition fh_rotate_create_leaves : list fstep :=
+  [FO None (OStore [ex_log 1 1]); FO None (OStore [ex_log 2 1]);
+   FOp (Some 1%nat) fx_leaves (OStore [ex_log 3 1]);
+   FO None (OStore [ex_log 3 1]); FO None OLast;
+   FRestart; FO None (OStore [ex_log 3 1]); FO None OLast; FO None (OGet 3)].
 
 Definition fault_final (c : cfg) (steps : list fstep) : fstate :=
   match initial c with
@@ -68,4 +114,8 @@ Definition ff_flags (c : cfg) (steps : list fstep) : bool * bool :=
   let w := ss_wal (fs_s (fault_final c steps)) in (st_failed w, st_closed w).
 (* the result of the last call of the history *)
 Definition ff_result (c : cfg) (steps : list fstep) (f : option nat) (o : sop) : result :=
-  fst (step_model c (with_fault (fs_s (fault_final c steps)) f) o).
+  fst (step_model c (with_fault (fs_s (fault_final c steps)) f fx_none) o).
+(* the number of segment files on the disk *)
+Definition ff_nfiles (c : cfg) (steps : list fstep) : nat := length (dk_files (e_disk (ss_env (fs_s (fault_final c steps))))).
+Definition ff_result_fx (c : cfg) (steps : list fstep) (f : option nat) (fx : fxmode) (o : sop) : result :=
+  fst (step_model c (with_fault (fs_s (fault_final c steps)) f fx) o).
